@@ -479,6 +479,23 @@ func init() {
 		m.end("exit", strconv.Itoa(code))
 		return nil
 	})
+	flagVar := func(m *Machine, fn *ssa.Function, a []Value) Value {
+		m.store(a[0].(Ptr), a[2])
+		flags, _ := m.Extra["flags"].(map[string]Ptr)
+		if flags == nil {
+			flags = map[string]Ptr{}
+			m.Extra["flags"] = flags
+		}
+		flags[concStrArg(m, a[1], "flag name")] = a[0].(Ptr)
+		return nil
+	}
+	for _, n := range []string{"StringVar", "BoolVar", "IntVar", "Uint64Var", "UintVar", "Int64Var"} {
+		reg("flag."+n, flagVar)
+	}
+	reg("flag.Parsed", func(m *Machine, fn *ssa.Function, a []Value) Value {
+		p, _ := m.Extra["flagsParsed"].(bool)
+		return m.S.Bool(p)
+	})
 	reg("math/rand.Uint64", func(m *Machine, fn *ssa.Function, a []Value) Value { return m.Nondet("rand", 64) })
 	reg("time.Now", func(m *Machine, fn *ssa.Function, a []Value) Value {
 		return m.zero(fn.Signature.Results().At(0).Type())
